@@ -535,6 +535,7 @@ attr_val_is_uri = frozenset((
     (None, 'background'),
     (None, 'datasrc'),
     (None, 'dynsrc'),
+    (None, 'icon'),
     (None, 'lowsrc'),
     (None, 'ping'),
     (namespaces['xlink'], 'href'),
